@@ -274,6 +274,59 @@ fn merge_case(sink: &mut Sink, r: &mut Rng) {
     sink.stat("merge");
 }
 
+fn string_leaves(v: &Value, cur: &mut Vec<String>, out: &mut Vec<Vec<String>>) {
+    match v {
+        Value::String(_) => out.push(cur.clone()),
+        Value::Object(m) => {
+            for (k, x) in m {
+                cur.push(k.clone());
+                string_leaves(x, cur, out);
+                cur.pop();
+            }
+        }
+        Value::Array(xs) => {
+            for (i, x) in xs.iter().enumerate() {
+                cur.push(format!("#{}", i));
+                string_leaves(x, cur, out);
+                cur.pop();
+            }
+        }
+        _ => {}
+    }
+}
+
+/// the document with one of its string members holding a value of another shape: a (nested) object
+/// or array - with integers, with numbers that are no integers -, a number, a boolean
+fn reshape(doc: &Value, r: &mut Rng) -> Option<Value> {
+    let mut leaves = vec![];
+    string_leaves(doc, &mut vec![], &mut leaves);
+    if leaves.is_empty() {
+        return None;
+    }
+    let path = r.pick(&leaves).clone();
+    let mut out = doc.clone();
+    let mut cur = &mut out;
+    for seg in &path {
+        cur = match cur {
+            Value::Object(m) => m.get_mut(seg)?,
+            Value::Array(xs) => xs.get_mut(seg.strip_prefix('#')?.parse::<usize>().ok()?)?,
+            _ => return None,
+        };
+    }
+    *cur = match r.below(9) {
+        0 => serde_json::json!({"a": 1.5}),
+        1 => serde_json::json!([2e9]),
+        2 => serde_json::json!({"k": "v"}),
+        3 => serde_json::json!(["x", 1]),
+        4 => serde_json::json!(1.25),
+        5 => serde_json::json!(true),
+        6 => serde_json::json!(7),
+        7 => serde_json::json!({"n": {"m": [0.5, -0.0]}}),
+        _ => serde_json::json!({}),
+    };
+    Some(out)
+}
+
 pub fn run(cfg: &Cfg) {
     let mut sink = Sink::new(&cfg.out);
     let mut r = Rng::new(cfg.seed);
@@ -297,6 +350,15 @@ pub fn run(cfg: &Cfg) {
         }
         if i % 5 == 0 {
             merge_case(&mut sink, &mut r);
+        }
+        // ---- one string member holding a value of another shape
+        if let Some(p) = reshape(&pred, &mut r) {
+            predicate_case(&mut sink, &mut model, &p, "predicate-reshaped");
+        }
+        if i % 2 == 0 {
+            if let Some(p) = reshape(&v01, &mut r) {
+                statement_case(&mut sink, &mut model, &p, None, "statement-reshaped");
+            }
         }
         // ---- value-level codec on mutated documents (any node: member deleted / renamed / added,
         //      value of another shape, damaged string or number), and on timestamps in every notation
